@@ -293,9 +293,11 @@ def k_flow_chunks(flavour: str) -> list[Result]:
         if fn.endswith("local_flow_control_window"):
             w = z3.Int(f"window!{k}")
             it.path.calls.append((fn, tuple(args), {"value": w}))
-            it.path.pc.append(w >= 0)
+            # (a window may be negative: a SETTINGS frame that lowers INITIAL_WINDOW_SIZE shrinks every open stream's
+            # window by the difference, RFC 9113 6.9.2; the sender must then wait until it is positive again)
+            pass  # any integer
             # environment contract of the bounded check: the window reopens
-            # after at most ZERO_POLLS consecutive empty readings
+            # after at most ZERO_POLLS consecutive readings without room
             zeros = 0
             for c in reversed(it.path.calls[:-1]):
                 if c[0].endswith("local_flow_control_window"):
@@ -339,7 +341,7 @@ def k_flow_chunks(flavour: str) -> list[Result]:
                 # only while the usable flow is zero, and for the connection (no stream id)
                 if last_window is None or last_frame is None:
                     return False
-                conj.append(z3.Or(last_window == 0, last_frame == 0))
+                conj.append(z3.Or(last_window <= 0, last_frame == 0))
                 if len(args) != 1 or kw:
                     return False
                 # processing events is where WINDOW_UPDATE and SETTINGS(MAX_FRAME_SIZE) are applied:
@@ -426,7 +428,7 @@ def replay_flow_chunks(flavour: str, args: dict[str, typing.Any]) -> bool:
         elif ev[0] == "f":
             f = ev[1]
         elif ev[0] == "recv":
-            if ev[1] != "ABSENT" or w is None or f is None or not (w == 0 or f == 0):
+            if ev[1] != "ABSENT" or w is None or f is None or not (w <= 0 or f == 0):
                 return True
             w = f = None  # readings taken before the events were processed are stale
         elif ev[0] == "send":
